@@ -13,11 +13,13 @@ EXPLANATION = (
     "bit-vector quotient with enough guard bits plus a sticky bit) -- in all five modes, including mantissas far longer than the "
     "precision (the double-rounding trap).  Approximate branch (|E| > 400): exercised by a documented cut (the interpreter lowers "
     "the constant 400 so that the branch runs with 8-digit powers of ten whose prec+10-bit approximation is inexact): the result "
-    "must lie on the correct side of the exact decimal for the four directed modes and within 2 ulp.  The tokeniser itself "
-    "(str.split / int() on symbolic strings) is outside the engine and the claim; p/q literals go through from_rational = mpf_div "
-    "(C02)."
+    "must lie on the correct side of the exact decimal for the four directed modes and within 2 ulp.  The tokeniser itself is "
+    "checked separately: str_to_man_exp runs on symbolic decimal strings (every digit symbolic, the positions of '.', 'e' and the "
+    "signs fixed per literal shape; lower/rstrip/split/strip/len/int and the float() validation are modelled on such strings) and "
+    "the returned (M, E) must denote exactly the value read off the digits independently -- this found F23 (mpf('.0') raised).  "
+    "p/q literals go through from_rational = mpf_div (C02)."
 )
-TRUSTED = _c02.TRUSTED + ["contract of str_to_man_exp (returns (M, E) with literal value M*10^E)", "cut: constant 400 lowered inside the interpreter for the approximate branch"]
+TRUSTED = _c02.TRUSTED + ["contract of str_to_man_exp (returns (M, E) with literal value M*10^E) for the numeric-layer obligations; the contract itself is the subject of the tokeniser obligations on 20 literal shapes", "model of str methods on symbolic decimal strings (pysym/strings.py)", "cut: constant 400 lowered inside the interpreter for the approximate branch"]
 ASSUMPTIONS = ["decimal exponent concrete per obligation; mantissa sign concrete per obligation"]
 BUDGET = {'quick': dict(ob_deadline_s=100, total_s=160), 'thorough': dict(ob_deadline_s=600, total_s=1500)}
 BOUNDS = {'quick': 'M up to 40 bits, E in -6..6 (exact branch), E = +-8 with the threshold lowered to 5 (approximate branch), prec 2..12'}
@@ -39,6 +41,13 @@ def obligations(tier, seed=0):
         for rnd in RNDS:
             for mneg in (0, 1):
                 add(mbits=mbits, E=E, prec=prec, rnd=rnd, mneg=mneg, limit=5)
+    # the tokeniser on symbolic literals: every digit symbolic, positions of '.', 'e' and signs per shape
+    shapes = ['D', 'DDD', 'D.D', 'D.DDD', 'DD.D0', '.D', '.DD', '-.DD', 'D.', 'DD.DeD', 'N.DDe-DD', 'DDeD', 'De+DD', '.DDeD', 'D.e+D', '-DD.De+DD', '+D.DDe-D',
+              '0.0DD', '00D.D00', 'DDDDDD.DDD']
+    if thorough:
+        shapes += ['DDDDDDDDDDDDDDD', 'D.DDDDDDDDDDe-DDD', '-.DDDDDDDDe+DD', 'DDDDDD.DDDDDDeDDD', 'DDDDDDDDDDDD.DDDDDD']
+    for sh in shapes:
+        obs.append(('checks.fam_str:tokenise', dict(shape=sh)))
     if thorough:
         for mbits, E, prec in [(40, -2, 12), (60, -10, 24), (53, 15, 24), (100, -20, 53), (64, -5, 53)]:
             for rnd in RNDS:
